@@ -45,8 +45,8 @@ def drivers():
         if (got == 0) != fe:
             record(badrec, 2, 2, idx, s, cell, val, got, 0 if fe else 1)
         if got < 0 or got > ub:
-            record(badrec, 4 if e >= 3 else 3, 3, idx, s, cell, val, got,
-                   ub)
+            record(badrec, 4 if (e >= 3 or a >= 3 or c >= 3) else 3, 3, idx,
+                   s, cell, val, got, ub)
         if is_cons:
             exp = cnt(y, rounds, a, b, c, dd, e, f)
             if exp != got:
